@@ -532,7 +532,7 @@ impl StateMachine {
     ensures self.0 == 0 ==> r.is_none(), self.0 > 0 ==> r == Some(BlockNumber((self.0 - 1) as u64)),
 """)
     err_enum(U, F_PROP, "ProposalError", None)
-    U.fn(F_PROP, SM + " :: fn on_proposal", wrap=SM, ret="r", props=["C03", "C05", "C01", "C02", "C11"], header_subs=HDR + [("Result<(), Error>", "Result<(), ProposalError>")], rules_=RULES,
+    U.fn(F_PROP, SM + " :: fn on_proposal", wrap=SM, ret="r", props=["C03", "C05", "C01", "C02", "C11", "C10"], header_subs=HDR + [("Result<(), Error>", "Result<(), ProposalError>")], rules_=RULES,
          subs=PATHS + [("Error::", "ProposalError::", None), ("ctx::ProposalError::", "CtxError::", None),
                         ("self.block_proposal_cache\n                    .entry($N)\n                    .or_default()\n                    .insert($H, $P);",
                          "self.block_proposal_cache.insert_payload($N, $H, $P);   /* R-chain */"),
@@ -755,7 +755,7 @@ def build(repo):
     Q.add_rest(U)
     U.props = ["C02"]
     I.add_implied(U)
-    U.props = ["C03", "C05", "C01"]
+    U.props = ["C03", "C05", "C01", "C10"]
     U.raw(ORD_VIEW, label="derive(PartialOrd) for View")
     U.item(F_CONS2, "enum Phase", attrs=T.D_COPY)
     U.item(F_CONS2, "enum ChonkyMsg")
